@@ -7,7 +7,9 @@
 use crate::common::{Ctx, Out, Rng};
 use crate::sx::{self, Sx};
 use metrics::{Counter, Gauge, Histogram, Key, KeyName, Label, Level, Metadata, Recorder, Unit as MUnit};
-use metrique_metricsrs::{MetricAccumulatorEntry, MetricRecorder};
+use metrique_metricsrs::{MetricAccumulatorEntry, MetricRecorder, MetricReporter};
+use metrique_writer_core::sink::FlushWait;
+use metrique_writer_core::AnyEntrySink;
 use metrique_timesource::{TimeSource, fakes::StaticTimeSource, set_time_source};
 use metrique_writer_core::config::AllowSplitEntries;
 use metrique_writer_core::value::MetricFlags;
@@ -240,7 +242,7 @@ impl<'a> EntryWriter<'a> for RecWriter {
         self.items.push(if any.is::<AllowSplitEntries>() { sx::tag(1, vec![]) } else { sx::tag(5, vec![sx::b(format!("{config:?}").as_bytes())]) });
     }
 }
-fn entry_items(e: &MetricAccumulatorEntry<dyn metrics::Recorder>) -> Sx {
+fn entry_items(e: &impl Entry) -> Sx {
     let mut w = RecWriter { items: vec![] };
     e.write(&mut w);
     Sx::L(w.items)
@@ -453,6 +455,84 @@ fn stress(out: &mut Out, rng: &mut Rng, threads: usize, per_thread: u64, case_id
     }
 }
 
+// ------------------------------------------------------------------------------------------ reporter.rs
+
+/// Sink handed to the MetricReporter: records every appended entry as an item list.
+struct CaptureSink(Arc<std::sync::Mutex<Vec<Sx>>>);
+impl AnyEntrySink for CaptureSink {
+    fn append_any(&self, entry: impl Entry + Send + 'static) { self.0.lock().unwrap().push(entry_items(&entry)); }
+    fn flush_async(&self) -> FlushWait { FlushWait::ready() }
+}
+
+/// The real reporter task (periodic readout + one final readout on shutdown) on a tokio runtime, with updater
+/// threads running until right before the shutdown; the very last increment can only be reported by the final
+/// readout. Accounting predicate only.
+fn reporter_run(out: &mut Out, rng: &mut Rng, case_id: u64) {
+    let captured = Arc::new(std::sync::Mutex::new(vec![]));
+    let ez = rng.chance(1, 2);
+    let threads = rng.range(1, 4) as usize;
+    let per_thread = rng.range(200, 3000);
+    let keys: Vec<K> = key_pool().into_iter().take(3).collect();
+    let expected_c: Arc<Vec<AtomicU64>> = Arc::new((0..3).map(|_| AtomicU64::new(0)).collect());
+    let expected_h: Arc<Vec<AtomicU64>> = Arc::new((0..3).map(|_| AtomicU64::new(0)).collect());
+    let rt = tokio::runtime::Builder::new_current_thread().enable_time().build().unwrap();
+    let cap2 = captured.clone();
+    let (ec, eh, keys2) = (expected_c.clone(), expected_h.clone(), keys.clone());
+    let mut forks: Vec<Rng> = (0..threads).map(|_| rng.fork()).collect();
+    rt.block_on(async move {
+        let (reporter, recorder) = MetricReporter::builder()
+            .metrics_publish_interval(Duration::from_millis(2))
+            .emit_zero_counters(ez)
+            .metrics_rs_version::<dyn metrics::Recorder>()
+            .metrics_sink((CaptureSink(cap2), ()))
+            .build_without_installing();
+        let counters: Vec<Counter> = keys2.iter().map(|k| recorder.register_counter(&mkey(k), &META)).collect();
+        let hists: Vec<Histogram> = keys2.iter().map(|k| recorder.register_histogram(&mkey(k), &META)).collect();
+        let mut js = vec![];
+        for _ in 0..threads {
+            let (cs, hs, ec, eh) = (counters.clone(), hists.clone(), ec.clone(), eh.clone());
+            let mut r = forks.pop().unwrap();
+            js.push(std::thread::spawn(move || {
+                for i in 0..per_thread {
+                    let k = r.below(3) as usize;
+                    if r.chance(2, 3) { let n = r.range(1, 9); cs[k].increment(n); ec[k].fetch_add(n, Ordering::Relaxed); }
+                    else { hs[k].record(r.below(5000) as f64); eh[k].fetch_add(1, Ordering::Relaxed); }
+                    if i % 97 == 0 { std::thread::sleep(Duration::from_micros(300)); }
+                }
+            }));
+        }
+        while js.iter().any(|j| !j.is_finished()) { tokio::time::sleep(Duration::from_millis(1)).await; }
+        for j in js { j.join().unwrap(); }
+        // nothing is awaited between this increment and the shutdown: only the final readout can report it
+        counters[0].increment(5);
+        ec[0].fetch_add(5, Ordering::Relaxed);
+        reporter.shutdown().await;
+        // after shutdown the task is gone: later increments are never reported (and must not be counted)
+        counters[1].increment(1_000_000);
+    });
+    let entries = captured.lock().unwrap().clone();
+    out.add("reporter_entries", entries.len() as u64);
+    let desc = sx::tag(98, vec![sx::n(case_id), sx::n(threads as u64), sx::n(per_thread)]);
+    if entries.is_empty() { out.fail("reporter: no entry at all, expected at least the final readout".into(), &desc); }
+    if entries.len() >= 2 { out.count("reporter_runs_with_periodic_readouts"); }
+    for (i, k) in keys.iter().enumerate() {
+        let (mut c, mut h) = (0u64, 0u64);
+        for e in &entries {
+            if e.list().first().map(|x| x.tag()) != Some(0) { out.fail("reporter: entry without timestamp".into(), &desc); }
+            for it in e.list() {
+                if it.tag() == 2 && it.arg(0).bytes() == k.name.as_bytes() && *it.arg(3) == enc_key(k).list()[1] {
+                    for o in it.arg(1).list() {
+                        match o.tag() { 0 => c += o.arg(0).num() as u64, 2 => h += o.arg(1).num() as u64, _ => {} }
+                    }
+                }
+            }
+        }
+        let (xc, xh) = (expected_c[i].load(Ordering::Relaxed), expected_h[i].load(Ordering::Relaxed));
+        if c != xc { out.fail(format!("reporter: counter #{i} reported {c} over {} entries, incremented {xc} before shutdown", entries.len()), &desc); }
+        if h != xh { out.fail(format!("reporter: histogram #{i} reported {h} observations over {} entries, recorded {xh}", entries.len()), &desc); }
+    }
+}
+
 pub fn run(ctx: &Ctx) {
     let mut out = Out::new(ctx, "");
     let emit = |out: &mut Out, ez: bool, plan: &[Top]| {
@@ -479,6 +559,8 @@ pub fn run(ctx: &Ctx) {
         let threads = rng.range(2, if thorough { 16 } else { 8 }) as usize;
         stress(&mut out, &mut rng, threads, if thorough { 200_000 } else { 30_000 }, i);
     }
+    for i in 0..(if thorough { 60 } else { 12 }) { reporter_run(&mut out, &mut rng, i); }
+    out.notes.push("reporter runs: the real MetricReporter task on a tokio runtime (periodic + final readout) with updater threads; accounting predicate only".into());
     out.notes.push("stress runs (updater threads against a reporter thread, unscheduled) are checked by the accounting predicate only".into());
     out.finish("runs in which at least one update is placed between the per-key steps of a readout; distinct by hash of the label list");
 }
